@@ -258,6 +258,11 @@ def process_fn(src: str, src_file: str, it: rustscan.Item, dirs: List[Directive]
                 edits.append(Edit(t.start, st[k + 1].end, '', 'real', 'D4'))
                 drops.append('D4 log::%s!' % st[i + 3].text)
                 i = k + 2; continue
+            if st[i - 1].text == '>' and st[i - 2].text == '=' and st[k + 1].text in (',', '}'):
+                # a match arm whose whole body is a log call: `pat => log::warn!(..),`  ->  `pat => (),`
+                edits.append(Edit(t.start, st[k].end, '()', 'real', 'D4'))
+                drops.append('D4 log::%s! (match arm)' % st[i + 3].text)
+                i = k + 1; continue
         i += 1
     # --- D1: Self::X -> concrete type from the impl's `type X = T;`
     inherent = any(d.kind == 'inherent' for d in dirs)
